@@ -325,6 +325,12 @@ def run_case(case):
         # program's variable (found by running the procedure's body once on copies of the arguments)
         obs["viols"].append({"sig": "C04/%s/runtime-procedure-changes-the-callers-variable" % kind_name,
                              "detail": dict(detail, clobbered=[list(map(str, m_[1:])) for m_ in clob][:4])})
+    if b.get("shadow_subscript") and set(kinds) <= {"lit", "big", "zero", "bare", "bareb", "barez"}:
+        # the statement is legal (operands of these kinds are constants within each operand's documented range - the source
+        # model does not police every range itself), and the body of its runtime procedure, run on the operands it was
+        # handed, indexes outside one of the procedure's arrays
+        obs["viols"].append({"sig": "C04/%s/runtime-procedure-subscript-out-of-range" % kind_name,
+                             "detail": dict(detail, errors=[list(x) for x in b["shadow_subscript"]][:3])})
     lib = harness.library()
     exp = expected_events(cb["events"])
     got = actual_events(b["events"], lib)
